@@ -164,3 +164,24 @@ Theorem C04_r1cs_tobinary_sound :
               BuilderR1CSProps.fbv F zero add mul cst w 1%Z bits = BuilderR1CSProps.ev F zero add mul w v).
 Proof. intros F zero one add mul sub opp div inv Fth eq_dec cst c0 c1. exact (tobinary_sound F zero one add mul sub opp div inv Fth eq_dec cst c0 c1). Qed.
 Print Assumptions C04_r1cs_tobinary_sound.
+
+(* both halves as one statement: the compiled R1CS is satisfiable with given inputs and given public output
+   values exactly when the documented meaning admits a trace from these inputs exposing these values *)
+From GnarkV Require Import Frontend.BuilderR1CSExact.
+Theorem C04_r1cs_builder_exact :
+  forall (F : Type) (zero one : F) (add mul sub : F -> F -> F) (opp : F -> F) (div : F -> F -> F) (inv : F -> F),
+  field_theory zero one add mul sub opp div inv (@eq F) ->
+  forall (eq_dec : forall x y : F, {x = y} + {x <> y}) (cst : Z -> F),
+  cst 0%Z = zero -> cst 1%Z = one -> cst 2%Z = add one one ->
+  forall (nbpub nbsec thr : nat) (prog : list op) (outs : list nat),
+  let st := b_compile F zero one add mul sub opp inv eq_dec cst nbpub nbsec thr prog outs in
+  b_err F st = false ->
+  forall vs0 ovals : list F, length vs0 = (nbpub + nbsec)%nat -> length ovals = length outs ->
+  (exists w, BuilderR1CSProps.good F zero one add mul w st /\
+     (forall i, i < nbpub + nbsec -> w (input_wire nbpub (length outs) i) = nth i vs0 zero) /\
+     (forall j, j < length outs -> w (S (nbpub + j)) = nth j ovals zero))
+  <->
+  (exists fin, BuilderR1CSProps.trace_sem F zero one add mul sub opp div inv eq_dec cst prog vs0 fin /\
+     forall j o, nth_error outs j = Some o -> nth o fin zero = nth j ovals zero).
+Proof. exact compile_exact. Qed.
+Print Assumptions C04_r1cs_builder_exact.
